@@ -526,6 +526,54 @@ func genC09(seed uint64, tier string, outdir string) *Report {
 		}
 		texts = append(texts, c.Coq())
 	}
+	// Fault-injected histories (monitor-only: the L2 model has no fault notion; Model/L2Fault.v
+	// proves the corresponding statement): errors and panics at MintCoins and at the transfer to
+	// the recipient of some deposits, interleaved with normal traffic.  A failed deposit must be
+	// refunded with the bank exactly as before, so the supply ledger has to keep holding.
+	nFault, fLen := 10, 40
+	if tier == "thorough" {
+		nFault, fLen = 80, 80
+	}
+	for k := 0; k < nFault; k++ {
+		sc := NewL2Scenario(seed*104729+uint64(k), 100000+k, true)
+		e, r, c := sc.Env, sc.R, sc.Case
+		initObs := e.L2Obs(c.Track, ExecResult{OK: true})
+		for i := 0; i < fLen; i++ {
+			n1, _ := e.K.GetNextL1Sequence(e.Ctx)
+			switch r.Weighted([]int{55, 15, 30}) {
+			case 0:
+				to := e.User(uint64(1 + r.Intn(6))).Str
+				amt := big.NewInt(int64(1 + r.Intn(300)))
+				op := sc.Deposit(sc.SenderString(0), n1, to, r.Intn(2), amt, Hook{Kind: "none"})
+				if r.Chance(50) { // keeper calls of a positive deposit: 1 = MintCoins, 2 = SendCoinsFromModuleToAccount
+					*e.Fault = FaultPlan{FailAt: 1 + r.Intn(2), Panic: r.Bool()}
+				}
+				c.Do(op)
+				if e.Fault.FailAt != 0 && !e.Fault.Disabled {
+					kind := "error"
+					if e.Fault.Panic {
+						kind = "panic"
+					}
+					rep.Hist(fmt.Sprintf("fault:%s@%d", kind, e.Fault.FailAt))
+				}
+				*e.Fault = FaultPlan{Disabled: true}
+			case 1:
+				from, to := uint64(1+r.Intn(6)), uint64(1+r.Intn(6))
+				d := sc.L2Denoms[r.Intn(2)]
+				c.Do(L2Op{Kind: "send", FromID: from, ToID: to, Denom: d, Amt: big.NewInt(int64(1 + r.Intn(40)))})
+			case 2:
+				u := e.User(uint64(1 + r.Intn(6)))
+				d := sc.L2Denoms[r.Intn(2)]
+				bal := e.BK.GetBalance(e.Ctx, u.Addr, d).Amount.BigInt()
+				amt := new(big.Int).Add(big.NewInt(int64(r.Intn(3))), new(big.Int).Rsh(bal, 1))
+				c.Do(L2Op{Kind: "withdraw", Sender: u.Str, To: sc.L1Addrs[0], Denom: d, Amt: amt})
+			}
+		}
+		c09Check(rep, c, initObs)
+		rep.Ops += len(c.Ops)
+		rep.CountCase(strings.Join(opsCoq(c.Ops), "\n"), true)
+	}
+	rep.Notes = append(rep.Notes, fmt.Sprintf("%d fault-injected histories of %d operations (error / panic at MintCoins, SendCoinsFromModuleToAccount of deposits), monitor-only", nFault, fLen))
 	rep.Notes = append(rep.Notes, fmt.Sprintf("%d random histories of %d+ operations; monitors: supply ledger, shared L2 sequence, exact burn, write-once denom map, refund neutrality, withdrawal completeness", nCases, length))
 	writeShards(outdir, "C09", l2CaseHeader, "run_l2case", "l2case", texts, 16, rep)
 	return rep
